@@ -346,6 +346,16 @@ for sfx_, xmax, unw, tier_ in (('_x255', 255, 12, 'quick'), ('', 65535, 20, 'tho
     P.contract('glm_sqrt_u32' + sfx_, 'glm::sqrt(uint)  ' + F_XI, unwind=unw, bounded='x <= %d' % xmax, backends=('sat', 'z3'), timeout=600, tier=tier_,
                requires=[('x_bounded', 'x <= %d' % xmax)],
                ensures=[('floor_sqrt_exact', 'spec_is_floor_sqrt((u64)RESULT, (u64)x)')], **XI)
+# the whole 32-bit argument range of sqrt is out of the verifier's reach (value-bounded Newton loop, one 32-bit division per step): kind X runs the
+# real code natively on every argument (complete by enumeration; reported as bounded, never as proved)
+XB = 'complete enumeration: the real code (g++ -O2) executed on all 2^32 argument values; not a deductive proof'
+d_gx.shim('glm_sqrt_u32_all', 'uint32_t', [('uint32_t', 'x')], 'return glm::sqrt(x);')
+P.contract('glm_sqrt_u32_all', 'glm::sqrt(uint)  ' + F_XI, kind='X', bounded=XB, timeout=900, tier='quick',
+           ensures=[('floor_sqrt_exact', 'spec_is_floor_sqrt((u64)RESULT, (u64)x)')], **XI)
+d_gx.shim('glm_sqrt_i32_all', 'int32_t', [('int32_t', 'x')], 'return glm::sqrt(x);')
+P.contract('glm_sqrt_i32_all', 'glm::sqrt(int)  ' + F_XI, kind='X', bounded=XB, timeout=900, tier='quick',
+           requires=[('x_nonnegative', '(s32)x >= 0')],
+           ensures=[('floor_sqrt_exact', '(s32)RESULT >= 0 && spec_is_floor_sqrt((u64)RESULT, (u64)x)')], **XI)
 d_gx.shim('glm_nlz_u32', 'uint32_t', [('uint32_t', 'x')], 'return glm::nlz(x);')
 # mod exists for int / unsigned int only; the full 32-bit range is not decided by any back end (probed), so as for the
 # multiples two embedded 8-bit problems are claimed, each exhaustive and reported as bounded
@@ -387,7 +397,7 @@ P.not_covered = [
     '%-based functions (isMultiple, next/prev/ceil/floor/roundMultiple) on 32/64-bit types over their full range, and gtx mod(int/uint) over the full range: no back end finishes (sat, z3, cvc5 probed, > 900 s); claimed instead, as bounded, on two embedded exhaustive 8-bit sub-domains (arguments multiples of 2^(n-8); arguments below 2^8), scalar forms only',
     '%-based functions at 16 bit in vector form (component-wise functor2 application of the proved scalar function): ~4 x 5-12 min per obligation, not run; the 8-bit vector forms are proved',
     'findNSB(vec4) for the 64-bit element types (functor2_vec_int application of the proved scalar function): > 900 s per contract, not run',
-    'gtx pow for y > 12, sqrt for x > 65535, factorial for x > 12: value-bounded loops (reported as bounded below these limits)',
+    'gtx pow for y > 12, factorial for x > 12: value-bounded loops (reported as bounded below these limits); gtx sqrt: the verifier reaches x <= 65535 (bounded), the full 32-bit range is covered by complete native enumeration (kind X, reported as bounded, not as proved)',
     'gtx floor_log2: declared in gtx/integer.hpp but its definition is commented out (does not link)',
     'bitfieldRotate with Shift == 0 on 32/64-bit types and bitfieldFill with FirstBit == width: shift by the full width (C20)',
     'glm/simd/integer.h (SSE2 interleave): covered by C03',
